@@ -1376,6 +1376,24 @@ void reb_simulation_rescale_var(struct reb_simulation* const r){
             if (r->integrator == REB_INTEGRATOR_WHFAST && r->ri_whfast.safe_mode == 0){
                 r->ri_whfast.recalculate_coordinates_this_timestep = 1;
             }
+            if (r->integrator == REB_INTEGRATOR_IAS15 && r->ri_ias15.N_allocated >= 3*(unsigned int)(vc->index+N)){
+                // IAS15 carries the compensated summation terms and the predictor coefficients over to the next step.
+                struct reb_integrator_ias15* const ri_ias15 = &(r->ri_ias15);
+                const struct reb_dp7 dp7s[4] = {ri_ias15->b, ri_ias15->e, ri_ias15->br, ri_ias15->er};
+                for (int k=3*vc->index; k<3*(vc->index+N); k++){
+                    ri_ias15->csx[k] /= scale;
+                    ri_ias15->csv[k] /= scale;
+                    for (int d=0; d<4; d++){
+                        dp7s[d].p0[k] /= scale;
+                        dp7s[d].p1[k] /= scale;
+                        dp7s[d].p2[k] /= scale;
+                        dp7s[d].p3[k] /= scale;
+                        dp7s[d].p4[k] /= scale;
+                        dp7s[d].p5[k] /= scale;
+                        dp7s[d].p6[k] /= scale;
+                    }
+                }
+            }
         }
     }
 }
